@@ -127,7 +127,8 @@ def run(prop, tier, seed, replay=None):
                 args.append(('W-%06d' % n_, T, sid, [(f, list(o), g) for (f, o, g) in jobs], None, seed + n_))
             # seeded random larger trees with exotic words, all formats
             pool = ['w', '(', ')', 'a&b', '<t>', '"q"', "it's", u'Übermaß', u'日本', 'x' * 7, 'y' * 8,
-                    'z' * 15, 'v' * 16, 'u' * 23, 't' * 24, 's' * 25, '#5000', '-LRB-', '[', '--', '%s']
+                    'z' * 15, 'v' * 16, 'u' * 23, 't' * 24, 's' * 25, '#5000', '-LRB-', '[', '--', '%s',
+                    u'10\u00a0000', u'z.\u202fB.', u'a\u3000b', u'\u00a0x', u'p\u2028q']
             for k in range(150 if tier == 'quick' else 2500):
                 T = treeio.random_tree(rnd, nmax=8 if tier == 'quick' else 11, maxcons=6, labels=('S', 'NP', 'VP-X'),
                                        edges=('HD', '--', 'NK'), tags=('NN', '$('), tokedges=('--', 'HD'),
